@@ -9,9 +9,9 @@ import vlib
 PROPERTIES = ["C01", "C02", "C03", "C04", "C09"]
 
 W1 = {"stakers": 2, "operators": 2, "assets": ["lst"], "holdops": ["o1"],
-      "scales": ["1", "1000000", "1000003", "700000000000000003"], "blocksPer": 5, "modelPrec": 100}
+      "scales": ["1", "1000000", "1000003", "700000000000000003", "1000000000000000000000000000003"], "blocksPer": 5, "modelPrec": 100}
 W2 = {"stakers": 3, "operators": 3, "assets": ["nat", "lst", "nst"], "holdops": ["o1"],
-      "scales": ["1", "1000003", "700000000000000003"], "blocksPer": 5, "modelPrec": 100}
+      "scales": ["1", "1000003", "700000000000000003", "1000000000000000000000000000003"], "blocksPer": 5, "modelPrec": 100}
 
 W1P = dict(W1, path="precompile", scales=["1", "1000003"])
 
@@ -41,6 +41,8 @@ def _g(w):
     power (scaled like the amounts) still fits int64"""
     return dict(w, blocksPer=10, scales=["1", "1000003"])
 
+
+GOAL_EXTRA_SCALES = ["1000000000000000000000000000003"]
 
 GOALS = [("MC_Ledger_goalA.tla", "MC_Ledger_goal_A.cfg", [_g(W1), _g(W1P)]), ("MC_Ledger_goalA.tla", "MC_Ledger_goal_A2.cfg", [_g(W1)]),
          ("MC_Ledger_goalB.tla", "MC_Ledger_goal_B.cfg", [_g(W3)]), ("MC_Ledger_goalB.tla", "MC_Ledger_goal_C.cfg", [_g(W3)]),
@@ -130,7 +132,7 @@ def _run(tier, seed, harness, d):
         return wname, ci, behs, lines, tags, vlib.LAST_COV.get(dt, [])
 
     import concurrent.futures as cf
-    par = int(os.environ.get("VERIF_PAR", "6"))
+    par = int(os.environ.get("VERIF_PAR", "10"))
     def lead(item):
         module, cfg, hcfg = item
         dl = os.path.join(d, "lead-" + cfg)
@@ -186,11 +188,15 @@ def _run(tier, seed, harness, d):
             # goal's pool states are reached on the operator that starts empty
             behs = sorted(set(behs) | {b.replace('"o1"', '"o#"').replace('"o2"', '"o1"').replace('"o#"', '"o2"') for b in behs})
             res["goal_runs"].append({"cfg": cfg, "goals_reached": sorted(found), "behaviours": len(behs), "states": st["distinct"], "wall_s": st.get("wall_s"), "worlds": len(hcfgs)})
+            # every goal behaviour is replayed at EVERY amount scale of its world (not at one picked at random):
+            # unit amounts, amounts whose products need rounding, and amounts around 10^30 where a
+            # divide-before-multiply or a mis-sized overflow guard loses whole units
             for wi, hcfg in enumerate(hcfgs):
-                wname = f"goal:{cfg}:{wi}"
-                worlds[wname] = dict(hcfg=hcfg)
-                for ci in range(0, len(behs), chunk):
-                    jobs.append((wname, ci, behs[ci:ci + chunk]))
+                for si, sc in enumerate(["1000003"] if hcfg.get("path") == "precompile" else hcfg["scales"] + GOAL_EXTRA_SCALES):
+                    wname = f"goal:{cfg}:{wi}:{si}"
+                    worlds[wname] = dict(hcfg=dict(hcfg, scales=[sc]))
+                    for ci in range(0, len(behs), chunk):
+                        jobs.append((wname, ci, behs[ci:ci + chunk]))
         for wname, behs in gens:
             for ci in range(0, len(behs), chunk):
                 jobs.append((wname, ci, behs[ci:ci + chunk]))
